@@ -10,12 +10,15 @@ missing metadata, early close, never-closed channel → timeout).
 * `stream_ok_iff` (full, induction over arbitrary chunk lists): `process_snapshot_stream` returns Ok **iff** the stream
   is exactly chunks 0..n−1 of one (term, leader), all checksums valid, n = the announced total, label on the first
   chunk, stream closed; the assembled file is then the concatenation of the payloads.
-* `stream_all_or_nothing` (full for every stream-level failure): Ok ⇒ exact stream, state replaced, final file =
-  concatenation; Err of any stream-level kind ⇒ state machine and final files untouched, no final file (only the temp
-  file); Err `archive` happens only for an exact stream whose archive does not unpack, and leaves the state untouched.
-* `ErrLeavesFilesStatement` ("Err ⇒ final files untouched") is **false** as coded: `finalize` renames the temp file to
-  its final name *before* the archive is validated (F33) — `err_leaves_files_fails` (witness), `err_leaves_files_partial`
-  (exact trigger: error kind `archive`).
+* `stream_all_or_nothing` / `err_leaves_everything` (full): Ok ⇒ exact stream, archive unpacked, state replaced, final
+  file = concatenation; Err of ANY kind ⇒ state machine and final files untouched, no final file (only the temp file).
+* `finalize_crash_atomic`: at every process-crash point the final files are untouched or hold the complete, validated
+  concatenation.
+
+History: until /repo 814e6ba `finalize` renamed the temp file to its final name *before* the archive was validated, so
+"Err ⇒ final files untouched" was false (F33: a truncated transfer whose first chunk announces fewer chunks, or a payload
+altered together with its CRC, was reported as failed and still left a corrupt final snapshot file). Fixed; the witness
+streams stay in `corpus/snapstream/findings.case` as regression cases.
 -/
 namespace DEngine.C17
 open DEngine.SnapStream
@@ -214,19 +217,52 @@ theorem wellFormedFrom_iff (cs : List Chunk) : ∀ (k t l : Nat), wellFormedFrom
 
 /-! ## Follower level -/
 
+/-- `run` never reports the error kind `archive` (that kind belongs to the unpack step). -/
+theorem run_not_archive : ∀ (cs : List Chunk) (s : St) (a : List Ack), run s cs ≠ .error (.archive, a) := by
+  intro cs
+  induction cs with
+  | nil => intro s a h; cases h
+  | cons c rest ih =>
+    intro s a h
+    simp only [run] at h
+    cases hs : stepChunk s c with
+    | error y =>
+      rw [hs] at h; simp only [] at h
+      injection h with h; subst h
+      unfold stepChunk at hs
+      cases hpin : s.pin with
+      | none =>
+        simp only [hpin] at hs
+        by_cases hm : c.md = .none
+        · simp [hm] at hs
+        · simp only [hm, if_false] at hs
+          by_cases hk : c.sumOk = true
+          · simp only [hk, Bool.not_true, Bool.false_eq_true, if_false] at hs
+            by_cases hq : c.seq = s.expected <;> simp [hq] at hs
+          · simp [hk] at hs
+      | some p =>
+        obtain ⟨t, l⟩ := p
+        simp only [hpin] at hs
+        by_cases h1 : c.term ≠ t ∨ c.leader ≠ l
+        · simp [h1] at hs
+        · simp only [h1, if_false] at hs
+          by_cases hk : c.sumOk = true
+          · simp only [hk, Bool.not_true, Bool.false_eq_true, if_false] at hs
+            by_cases hq : c.seq = s.expected <;> simp [hq] at hs
+          · simp [hk] at hs
+    | ok s1 => rw [hs] at h; exact ih s1 a h
+
 /-- **All-or-nothing** for `apply_snapshot_stream_from_leader`, every follower state, every chunk stream:
     * Ok ⇒ the stream was exact, the archive unpacked, the state is the snapshot's with `last_applied` = its label, the
       final file of that label is the concatenation, no temp file is left;
-    * Err of a stream-level kind (order, leader, checksum, nometa, count, timeout, nolast) ⇒ state machine and final
-      files untouched — only the temp file exists;
-    * Err `archive` ⇒ the stream was exact but its archive does not unpack; the state machine is untouched. -/
+    * Err (any kind: order, leader, checksum, nometa, count, timeout, nolast, archive) ⇒ state machine and final files
+      untouched — only the temp file exists. -/
 theorem stream_all_or_nothing (f : Follower) (n : Nat) (cs : List Chunk) (e : End) :
     let out := receive f n cs e
     (out.2.1 = .ok → ∃ label content, exact cs e = some (label, content) ∧ archiveOk n content = true ∧
         out.1 = { sm := .snapshot label, finals := upsert f.finals label (.toks content), part := false }) ∧
-    (∀ er, out.2.1 = .err er → er ≠ .archive → out.1 = { f with part := true }) ∧
-    (out.2.1 = .err .archive → ∃ label content, exact cs e = some (label, content) ∧ archiveOk n content = false ∧
-        out.1.sm = f.sm) := by
+    (∀ er, out.2.1 = .err er → out.1 = { f with part := true }) ∧
+    (out.2.1 = .err .archive → ∃ label content, exact cs e = some (label, content) ∧ archiveOk n content = false) := by
   intro out
   cases hp : processStream cs e with
   | err er acks =>
@@ -240,41 +276,7 @@ theorem stream_all_or_nothing (f : Follower) (n : Nat) (cs : List Chunk) (e : En
         rw [hr] at hp; simp only [] at hp
         injection hp with h1 _
         subst h1
-        -- `run` never produces `archive`
-        have : ∀ (cs : List Chunk) (s : St) (a : List Ack), run s cs ≠ .error (.archive, a) := by
-          intro cs
-          induction cs with
-          | nil => intro s a h; cases h
-          | cons c rest ih =>
-            intro s a h
-            simp only [run] at h
-            cases hs : stepChunk s c with
-            | error y =>
-              rw [hs] at h; simp only [] at h
-              injection h with h; subst h
-              unfold stepChunk at hs
-              cases hpin : s.pin with
-              | none =>
-                simp only [hpin] at hs
-                by_cases hm : c.md = .none
-                · simp [hm] at hs
-                · simp only [hm, if_false] at hs
-                  by_cases hk : c.sumOk = true
-                  · simp only [hk, Bool.not_true, Bool.false_eq_true, if_false] at hs
-                    by_cases hq : c.seq = s.expected <;> simp [hq] at hs
-                  · simp [hk] at hs
-              | some p =>
-                obtain ⟨t, l⟩ := p
-                simp only [hpin] at hs
-                by_cases h1 : c.term ≠ t ∨ c.leader ≠ l
-                · simp [h1] at hs
-                · simp only [h1, if_false] at hs
-                  by_cases hk : c.sumOk = true
-                  · simp only [hk, Bool.not_true, Bool.false_eq_true, if_false] at hs
-                    by_cases hq : c.seq = s.expected <;> simp [hq] at hs
-                  · simp [hk] at hs
-            | ok s1 => rw [hs] at h; exact ih s1 a h
-        exact this cs St.init x2 hr
+        exact run_not_archive cs St.init x2 hr
       | ok s =>
         rw [hr] at hp; simp only [] at hp
         cases e with
@@ -286,7 +288,7 @@ theorem stream_all_or_nothing (f : Follower) (n : Nat) (cs : List Chunk) (e : En
           · split at hp <;> cases hp
     refine ⟨?_, ?_, ?_⟩
     · intro h; rw [hout] at h; cases h
-    · intro er' h _; rw [hout]
+    · intro er' _; rw [hout]
     · intro h; rw [hout] at h; injection h with h; exact absurd h hne
   | ok label content acks =>
     have hex : exact cs e = some (label, content) := (stream_ok_iff cs e label content).mp ⟨acks, hp⟩
@@ -297,53 +299,36 @@ theorem stream_all_or_nothing (f : Follower) (n : Nat) (cs : List Chunk) (e : En
       · intro er h; rw [hout] at h; cases h
       · intro h; rw [hout] at h; cases h
     · have hv' : archiveOk n content = false := by simpa using hv
-      have hout : out = ({ f with finals := upsert f.finals label (.toks content), part := false }, .err .archive, acks) := by
+      have hout : out = ({ f with part := true }, .err .archive, acks) := by
         simp [out, receive, hp, hv']
-      refine ⟨?_, ?_, fun _ => ⟨label, content, hex, hv', by rw [hout]⟩⟩
+      refine ⟨?_, ?_, fun _ => ⟨label, content, hex, hv'⟩⟩
       · intro h; rw [hout] at h; cases h
-      · intro er h hne; rw [hout] at h; injection h with h; exact absurd h.symm hne
+      · intro er _; rw [hout]
 
-/-- Full strength as the property words it: *any* failed transfer leaves the final files untouched. -/
-def ErrLeavesFilesStatement : Prop :=
-  ∀ (f : Follower) (n : Nat) (cs : List Chunk) (e : End) (er : Err),
-    (receive f n cs e).2.1 = .err er → (receive f n cs e).1.finals = f.finals
+/-- **Any failed transfer leaves the state machine and the final snapshot files untouched** (full strength; before
+    /repo 814e6ba this was false — F33: `finalize` renamed before the archive was validated; regression witness
+    `corpus/snapstream/findings.case`). -/
+theorem err_leaves_everything (f : Follower) (n : Nat) (cs : List Chunk) (e : End) (er : Err)
+    (h : (receive f n cs e).2.1 = .err er) :
+    (receive f n cs e).1.finals = f.finals ∧ (receive f n cs e).1.sm = f.sm := by
+  have := (stream_all_or_nothing f n cs e).2.1 er h
+  rw [this]; exact ⟨rfl, rfl⟩
 
-/-- A one-chunk snapshot whose payload was replaced (checksum recomputed, so every per-chunk check passes). -/
+/-- The F33 regression stream: one chunk whose payload was replaced together with its CRC. -/
 def w33 : List Chunk :=
   [{ seq := 0, total := 1, term := 2, leader := 1, md := .label 3 2, sumOk := true, data := (0, false) }]
 
-/-- **Negation (F33)**: the stream passes every check, `finalize` renames the temp file to `…3-2.tar.gz`, only then the
-    unpack fails: the transfer is reported as failed and a final snapshot file exists. -/
-theorem err_leaves_files_fails : ¬ ErrLeavesFilesStatement := by
-  intro h
-  have := h { sm := .own, finals := [((1, 1), .old)], part := false } 1 w33 .closed .archive (by decide)
-  revert this; decide
-
-/-- **Partial theorem, trigger exact**: a failed transfer changes the final files only in the `archive` case, i.e. only
-    after a stream that passed all per-chunk and count checks. -/
-theorem err_leaves_files_partial (f : Follower) (n : Nat) (cs : List Chunk) (e : End) (er : Err)
-    (h : (receive f n cs e).2.1 = .err er) (hne : er ≠ .archive) :
-    (receive f n cs e).1.finals = f.finals ∧ (receive f n cs e).1.sm = f.sm := by
-  have := (stream_all_or_nothing f n cs e).2.1 er h hne
-  rw [this]; exact ⟨rfl, rfl⟩
-
-/-- The state machine is untouched by every failed transfer (no exception). -/
-theorem err_leaves_state (f : Follower) (n : Nat) (cs : List Chunk) (e : End) (er : Err)
-    (h : (receive f n cs e).2.1 = .err er) : (receive f n cs e).1.sm = f.sm := by
-  by_cases hne : er = .archive
-  · subst hne
-    obtain ⟨_, _, _, _, hsm⟩ := (stream_all_or_nothing f n cs e).2.2 h
-    exact hsm
-  · exact (err_leaves_files_partial f n cs e er h hne).2
+example : receive { sm := .own, finals := [((1, 1), .old)], part := false } 1 w33 .closed =
+    ({ sm := .own, finals := [((1, 1), .old)], part := true }, .err .archive, [⟨0, .acc, 1⟩]) := by decide
 
 /-- **A completed snapshot file appears atomically** (process crash at any point of the receive path): the final files
-    are either untouched or contain the complete concatenation of an exact stream — never a partial file; and the state
-    machine is replaced only in states where that complete file is already in place. -/
+    are either untouched or contain the complete concatenation of an exact stream whose archive unpacks — never a
+    partial or invalid file; and the state machine is replaced only in states where that file is already in place. -/
 theorem finalize_crash_atomic (f : Follower) (n : Nat) (cs : List Chunk) (e : End) :
     ∀ s ∈ crashStates f n cs e,
       (s.finals = f.finals ∧ s.sm = f.sm) ∨
-      (∃ label content, exact cs e = some (label, content) ∧ s.finals = upsert f.finals label (.toks content) ∧
-        (s.sm = f.sm ∨ (s.sm = .snapshot label ∧ archiveOk n content = true))) := by
+      (∃ label content, exact cs e = some (label, content) ∧ archiveOk n content = true ∧
+        s.finals = upsert f.finals label (.toks content) ∧ (s.sm = f.sm ∨ s.sm = .snapshot label)) := by
   intro s hs
   unfold crashStates at hs
   cases hp : processStream cs e with
@@ -352,16 +337,15 @@ theorem finalize_crash_atomic (f : Follower) (n : Nat) (cs : List Chunk) (e : En
     rcases hs with rfl | rfl <;> exact Or.inl ⟨rfl, rfl⟩
   | ok label content acks =>
     have hex : exact cs e = some (label, content) := (stream_ok_iff cs e label content).mp ⟨acks, hp⟩
-    simp only [hp, List.mem_append, List.mem_cons, List.mem_nil_iff, or_false] at hs
-    rcases hs with (rfl | rfl | rfl) | hs
-    · exact Or.inl ⟨rfl, rfl⟩
-    · exact Or.inl ⟨rfl, rfl⟩
-    · exact Or.inr ⟨label, content, hex, rfl, Or.inl rfl⟩
-    · by_cases hv : archiveOk n content = true
-      · simp only [hv, if_true, List.mem_cons, List.mem_nil_iff, or_false] at hs
-        subst hs
-        exact Or.inr ⟨label, content, hex, rfl, Or.inr ⟨rfl, hv⟩⟩
-      · simp [hv] at hs
+    by_cases hv : archiveOk n content = true
+    · simp only [hp, hv, if_true, List.mem_cons, List.mem_nil_iff, or_false] at hs
+      rcases hs with rfl | rfl | rfl | rfl
+      · exact Or.inl ⟨rfl, rfl⟩
+      · exact Or.inl ⟨rfl, rfl⟩
+      · exact Or.inr ⟨label, content, hex, hv, rfl, Or.inl rfl⟩
+      · exact Or.inr ⟨label, content, hex, hv, rfl, Or.inr rfl⟩
+    · simp only [hp, hv, Bool.false_eq_true, if_false, List.mem_cons, List.mem_nil_iff, or_false] at hs
+      rcases hs with rfl | rfl <;> exact Or.inl ⟨rfl, rfl⟩
 
 /-! Non-vacuity: a genuine 3-chunk stream is accepted; the same stream with chunks 1 and 2 swapped is rejected. -/
 def genuine3 : List Chunk :=
